@@ -181,11 +181,38 @@ register(FnContract(
 
 
 # ------------------------------------------------------------------------------------------------ swapbytes
+from pyvc import structmodel  # noqa  (defines le_val)
+
+
+def le_val(a, lo, hi):
+    return t.app('le_val', t.INT, a, lo, hi)
+
+
+def _rev_stmt(v):
+    j = t.var('rj!', t.INT)
+    rev = forall_range(j, t.ZERO, v['n'], t.eq(t.select(v['b'], t.add(v['blo'], j)), t.select(v['a'], t.sub(t.sub(t.add(v['alo'], v['n']), t.ONE), j))),
+                       [[t.select(v['b'], t.add(v['blo'], j))]])
+    return t.implies(t.and_(t.ge(v['n'], t.ZERO), rev),
+                     t.eq(be_val(v['b'], v['blo'], t.add(v['blo'], v['n'])), le_val(v['a'], v['alo'], t.add(v['alo'], v['n']))))
+
+
+# the big-endian value of a reversed byte string is the little-endian value of the original
+REV = Lemma('be_of_reversal_is_le', [('a', t.ARR), ('b', t.ARR), ('alo', t.INT), ('blo', t.INT), ('n', t.INT)], _rev_stmt,
+            induct=('n', 0), ih_instances=lambda v: [{'a': v['a'], 'b': v['b'], 'alo': t.add(v['alo'], t.ONE), 'blo': v['blo']}],
+            tags=('C03', 'C12', 'C01', 'C15'))
+
+
 def _swap_ensures(pre, post):
     d, r = pre['data'], post.result
     j = t.var('j!', t.INT)
+    h1 = _rev_stmt({'a': d.arr, 'b': r.arr, 'alo': d.off, 'blo': r.off, 'n': d.len})
+    h2 = _rev_stmt({'a': r.arr, 'b': d.arr, 'alo': r.off, 'blo': d.off, 'n': d.len})
     return [('same-length', t.eq(r.len, d.len)),
-            ('reversed', forall_range(j, t.ZERO, d.len, t.eq(r.at(j), d.at(t.sub(t.sub(d.len, t.ONE), j))), [[r.at(j)]]))]
+            ('reversed', forall_range(j, t.ZERO, d.len, t.eq(r.at(j), d.at(t.sub(t.sub(d.len, t.ONE), j))), [[r.at(j)]])),
+            ('big-endian-value-of-result-is-little-endian-value-of-argument',
+             t.eq(be_val(r.arr, r.off, t.add(r.off, r.len)), le_val(d.arr, d.off, t.add(d.off, d.len))), None, [h1]),
+            ('little-endian-value-of-result-is-big-endian-value-of-argument',
+             t.eq(le_val(r.arr, r.off, t.add(r.off, r.len)), be_val(d.arr, d.off, t.add(d.off, d.len))), None, [h2])]
 
 
 register(FnContract(LIB + ':swapbytes', setup=setup_fn({'data': 'bytes'}), tags=T,
